@@ -1,4 +1,5 @@
 """C10 — randomised predictors sample from the probability mass function they report."""
+import random
 import json
 import math
 from fractions import Fraction as F
@@ -260,7 +261,7 @@ class CHECK(Check):
                 "grid": rng.choice([1, 1, 2, 2, 4, 10, 16, 100, 1000] if cons == "equalized_odds"
                                    else [1, 2, 4, 10, 16, 100, 1000]),
                 "estimator": est, "query": query,
-                "seed0": rng.randrange(10 ** 6)}
+                "seed0": (sd := rng.randrange(10 ** 6)), "history": random.Random(sd).random() < 0.3}
 
     def _gen_eg(self, rng, regression):
         n = rng.choice([12, 16, 20, 24, 32])
@@ -291,6 +292,9 @@ class CHECK(Check):
         case = {"kind": "egr" if regression else "egc", "x1": x1, "x2": x2, "A": A, "y": y, "query": q,
                 "lp": rng.random() < 0.45, "max_iter": rng.choice([3, 5, 8, 12, 20]),
                 "seed0": rng.randrange(10 ** 6)}
+        # "history": the same estimator object had a previous life (fit on other data, one prediction) before the fit
+        # that is judged -- the pmf / sampling clauses are about the fitted state, whatever the call history
+        case["history"] = random.Random(case["seed0"]).random() < 0.4
         if regression:
             case.update(learner=rng.choice(["treereg1", "treereg2", "linreg"]), loss=rng.choice(["square", "absolute"]),
                         bound=rng.choice(["1/50", "1/20", "1/10", "1/5"]))
@@ -365,6 +369,11 @@ class CHECK(Check):
             to = ThresholdOptimizer(estimator=LogisticRegression(C=10.0), constraints=case["constraints"],
                                     objective=case["objective"], prefit=False, predict_method="predict_proba",
                                     grid_size=case["grid"], flip=case["flip"])
+        if case.get("history"):
+            # previous life of the same object: other labels, reversed rows, one prediction
+            to.fit(X[::-1].copy(), 1 - y[::-1], sensitive_features=list(sf)[::-1])
+            to._pmf_predict(X[:2], sensitive_features=list(sf)[:2])
+            to.predict(X[:2], sensitive_features=list(sf)[:2], random_state=0)
         to.fit(X, y, sensitive_features=sf)
         d = to.interpolated_thresholder_.interpolation_dict
         out = {"rules": {str(k): rule_sig(v) for k, v in d.items()}}
@@ -427,6 +436,16 @@ class CHECK(Check):
                     "FPRP": red.FalsePositiveRateParity, "ERP": red.ErrorRateParity}[case["moment"]](difference_bound=eps)
             eg = red.ExponentiatedGradient(est, cons, eps=eps, max_iter=case["max_iter"], run_linprog_step=case["lp"],
                                            nu=None if case.get("nu") is None else float(F(case["nu"])))
+        if case.get("history"):
+            X0 = X.iloc[::-1].reset_index(drop=True)
+            A0 = A[::-1].copy()
+            y0 = (1.0 - y[::-1]) if reg else (1 - y[::-1])
+            try:
+                eg.fit(X0, y0, sensitive_features=A0)
+                eg._pmf_predict(Xq)
+                eg.predict(Xq, random_state=0)
+            except ValueError:
+                pass        # e.g. the known zero-signed-weights crash on the auxiliary data set: no previous life then
         eg.fit(X, y, sensitive_features=A)
         w = eg.weights_
         out = {"ids": [int(i) for i in w.index], "weights": [repr(float(v)) for v in w.values], "T": int(len(eg.predictors_))}
@@ -766,7 +785,7 @@ class CHECK(Check):
         return None
 
     def signature(self, case, o):
-        tags = [f"kind={case['kind']}"]
+        tags = [f"kind={case['kind']}", "history=refit-after-a-previous-life" if case.get("history") else "history=fresh"]
         nontrivial = False
         if isinstance(o, dict) and "crash" not in o:
             nq = len(case["query"])
